@@ -9,6 +9,9 @@ FLP='src/Factored/MDP/Algorithms/Utils/FactoredLP.cpp'
 MLP='src/Factored/MDP/Algorithms/LinearProgramming.cpp'
 GVE='include/AIToolbox/Factored/Utils/GenericVariableElimination.hpp'
 BN='src/Factored/Utils/BayesianNetwork.cpp'
+UC='include/AIToolbox/Utils/Core.hpp'
+FC='src/Factored/Utils/Core.cpp'
+LPW='src/Utils/LP/LpSolveWrapper.cpp'
 M = {
  'M1': (MLP, "                    if (checkEqualSmall(f.values(sId, aId), 0.0)) continue;\n                    // Add a column and re-initialize row\n                    lp.addColumn();\n                    lp.row.setZero();\n\n                    lp.row[currentRule] = +1.0;",
              "                    if (f.values(sId, aId) <= 0.0) continue;\n                    // Add a column and re-initialize row\n                    lp.addColumn();\n                    lp.row.setZero();\n\n                    lp.row[currentRule] = +1.0;",
@@ -34,6 +37,24 @@ M = {
  'N1': (MLP, "            lp.row[i] = h.bases[i].values.sum() / h.bases[i].values.size();", "            lp.row[i] = h.bases[i].values.sum() / h.bases[0].values.size();", 'objective: every basis mean normalised by the FIRST basis domain size'),
  'N2': (BN, "                for (size_t rId = 0; rDomain.isValid(); rDomain.advance(), ++rId)", "                for (size_t rId = 0; rDomain.isValid(); rDomain.advance(), ++rId) if (!(rhs.values.size() == 3 && rId == 0))", 'backProject skips the first value of a basis over one 3-valued factor'),
  'N3': (BN, "        return startIds_[feature][actionId] + parentId;", "        return startIds_[feature][actionId >= 2 ? actionId - 1 : actionId] + parentId;", 'DDNGraph::getId uses the previous block for joint parent actions >= 2'),
+ # ---- round 3: indirect mutations (shared helpers outside the two builders, LP wrapper)
+ 'R1': (UC, "        return ( std::fabs(a - b) <= equalToleranceSmall );\n    }\n\n    /**\n     * @brief This function checks if two doubles near [0,1] are reasonably different.",
+            "        return ( (a - b) <= equalToleranceSmall );\n    }\n\n    /**\n     * @brief This function checks if two doubles near [0,1] are reasonably different.",
+        'checkEqualSmall one-sided (a - b <= tol): every NEGATIVE basis / reward / back-projection entry is skipped as "zero" by solveLP'),
+ 'R2': (FC, "            while (pf.first[j] != id) ++j;\n            result += multiplier * pf.second[j];\n            multiplier *= space[id];",
+            "            while (pf.first[j] != id) ++j;\n            result += multiplier * pf.second[j];\n            multiplier *= space[ids[0]];",
+        'toIndexPartial(keys, space, PartialFactors) (the overload removeFactor uses): stride = size of the FIRST key for every key (invisible on uniform spaces)'),
+ 'R3': (FC, "            if (factors_.second[id] == F[factors_.first[id]]) {", "            if (factors_.second[id] == F[factors_.first[id ? id - 1 : 0]]) {",
+        'PartialFactorsEnumerator::advance wraps a digit at the size of the PREVIOUS key (invisible on uniform spaces)'),
+ 'R4': (LPW, "        if ( result == 0 || result == 1 )", "        if ( result == 0 || result == 1 || result == ACCURACYERROR )",
+        'LP::solve accepts ACCURACYERROR (the repair that was applied and reverted)'),
+ 'R5': (LPW, "            set_pivoting(lp, PRICER_FIRSTINDEX);\n            default_basis(lp);", "            set_pivoting(lp, PRICER_FIRSTINDEX);\n            set_scaling(lp, SCALE_GEOMETRIC + SCALE_DYNUPDATE);\n            default_basis(lp);",
+        'LP::solve changes the scaling mode for the second attempt without unscale (lp_solve then reports wrong optima with result 0); only reached when a retry happens: apply fixes/C15-5 first for a failing input'),
+ 'R6': (FC, "        std::transform(std::begin(rhs), std::end(rhs), std::back_inserter(retval), [S](const size_t a){ return a + S; });",
+            "        std::transform(std::begin(rhs), std::end(rhs), std::back_inserter(retval), [S, &lhs](const size_t a){ return a + (lhs.size() > 2 ? lhs.size() : S); });",
+        'join(S, tag, actionTag) offsets the action keys by |tag| instead of |S| for state tags of three keys'),
+ 'R7': (FLP, "            if (lp.row[i] != 0.0) {\n                lp.row[i+1] = lp.row[i];", "            if (lp.row[i] > 0.0) {\n                lp.row[i+1] = lp.row[i];",
+        'FactoredLP endCrossSum shift loop moves only positive coefficients (the -1 of newFactor stays in the + column)'),
  'M9': (GVE, "            for (size_t vValue = 0; vValue < V[v]; ++vValue) {", "            for (size_t vValue = 0; vValue < std::min<size_t>(V[v], 2); ++vValue) {",
         'only the first two values of the eliminated variable are cross-summed (all unit-test factors are binary/ternary?)'),
 }
